@@ -206,16 +206,18 @@ def observe_colors(text, spec):
 # --------------------------------------------------------------------------------------
 # the fixed document pool of spec/ColorCtx.tla (C14, C15)
 # --------------------------------------------------------------------------------------
+# The colour look-ups of every pool document, in rendering order, are exactly Uses(dd) of the
+# specification (red=552, blue=26, darkred=100, grey39=300, yellow=652).
 POOL = {
     "plain": dict(path="single", sections=[dict(n=3, m=2)], comp={"title": ["", "", 0]}),
-    "colA": dict(path="single", sections=[dict(n=3, m=2, text=[["red", "blue"], ["blue", "red"], ["red", "red"]])], comp={}),
+    "colA": dict(path="single", sections=[dict(n=3, m=1, text=[["red"], ["blue"], ["red"]])], comp={}),
     "colB": dict(path="single", sections=[dict(n=3, m=1, text=[["yellow"], ["darkred"], ["grey39"]])], comp={"footnote": ["", "", 0]}),
-    "multi": dict(path="multi", sections=[dict(n=2, m=2, text=[["darkred", "blue"]]), dict(n=2, m=2)], comp={"title": ["", "", 0]}),
+    "multi": dict(path="multi", sections=[dict(n=1, m=2, text=[["darkred", "blue"]]), dict(n=2, m=2)], comp={"title": ["", "", 0]}),
     "fig": dict(path="figure", comp={"title": ["red", "", 0]}, nfig=2),
     "fail": dict(path="single", sections=[dict(n=3, m=2, text="grey39", group_by=["~D1.1~"])], comp={}),
     "share2": dict(path="single", sections=[dict(n=2, m=2)], comp={}),
     "share3": dict(path="single", sections=[dict(n=2, m=3)], comp={}),
-    "paged": dict(path="single", sections=[dict(n=9, m=2, text=[["blue", ""], ["", "red"]])], comp={"title": ["", "", 0], "footnote": ["", "", 0]}, nrow=4),
+    "paged": dict(path="single", sections=[dict(n=4, m=1, text=[["blue"], ["red"]])], comp={"title": ["", "", 0], "footnote": ["", "", 0]}, nrow=3),
 }
 
 
